@@ -36,6 +36,7 @@ structure Residue where
   resv : Option Resv
   rapidPhaseInvoking : Bool
   gates : List (Nat × Bool × Option CErr)     -- (arrived, canceled, err) of the seven gates
+  initAgentsExpected : Nat                    -- expected count of the init flow's agents-ready gate (arrivals may precede its setting)
 deriving DecidableEq
 
 def residue (s : State) : Residue :=
@@ -44,7 +45,8 @@ def residue (s : State) : Residue :=
     doneChan := s.doneChan, resv := s.resv, rapidPhaseInvoking := s.rapidPhaseInvoking,
     gates := [s.initFlow.extRegistered, s.initFlow.runtimeReady, s.initFlow.agentReady, s.initFlow.restoreReady,
               s.invFlow.runtimeReady, s.invFlow.runtimeResponse, s.invFlow.agentReady].map
-             fun g => (g.arrived, g.canceled, g.err) }
+             fun g => (g.arrived, g.canceled, g.err),
+    initAgentsExpected := s.initFlow.agentReady.count }
 
 /-- **Reset = fresh.** Whatever the state before (any registrations, subscriptions, recorded fatal
     error, cached init error, parked handlers, barrier arrivals, cancellations, renderer, pending
@@ -57,12 +59,14 @@ theorem C08_reset_fresh (s : State) (from_ : Nat) :
 
 /-!
 What `residue` leaves out, and why it cannot influence later invocations:
-* gate `count`s survive `Clear()` (only `arrived/canceled/err` are cleared). The counts that are ever
-  changed (`extRegistered`, both `agentReady`) are set again before the first wait of the next
-  generation (`startInit`, `orchResume` at `iAwaitRestoreReady`, `continueInvoke`); the other four
-  are the constant 1. A walk that arrives *before* the count is set again can meet a stale count
-  (e.g. 0): then it is refused with ErrGateIntegrity, which the agent programs ignore — recorded as
-  a limit, see DESIGN.md (D10).
+* the other gate `count`s survive `Clear()` (only `arrived/canceled/err` are cleared): `extRegistered`
+  and the invoke flow's `agentReady` are set again before anybody can arrive in the next generation
+  (`startInit` sets the former before the first extension is launched, `continueInvoke` the latter
+  before the invocation is dispatched); the other four are the constant 1. The init flow's
+  `agentReady` is different — agents may ask for their first event before the runtime does, which is
+  when its count is set — and it used to keep the count of the previous init, so that such early
+  arrivals were refused once the old count was reached and the init never completed (finding F14,
+  repaired in /repo 247298e: `Clear` expects the maximum again). It is part of the residue now.
 * `gen`, `nextK`, `procs`, `ids`, `nextSerial`: names only.
 -/
 
@@ -71,8 +75,17 @@ example :
     let dirty : State := { agents := [{ name := "a", ext := true, st := .running, subs := [.invoke], flag := true }],
                            rt := some .running, fatal := some "Extension.Crash", cached := some "errjson:X",
                            cancelDone := true, initDone := true, regOn := false, renderer := .shutdown "x",
-                           initFlow := { extRegistered := { count := 1, arrived := 1, canceled := true, err := some .procExit } } }
+                           initFlow := { extRegistered := { count := 1, arrived := 1, canceled := true, err := some .procExit },
+                                         agentReady := { count := 1, arrived := 1 } } }
     residue (resetTail (afterReset dirty 0) 0) = residue ({} : State) ∧ residue dirty ≠ residue ({} : State) := by
   decide
+
+/-- **Early arrivals of the next generation are counted** (F14): after a reset the init flow's
+    agents-ready gate accepts an arrival whatever the number of agents of the previous generation
+    was — as on a fresh emulator. -/
+theorem C08_early_arrival_counted (s : State) (from_ : Nat) :
+    ((resetTail (afterReset s from_) from_).initFlow.agentReady.walk).2 = true := by
+  simp only [resetTail, afterReset, release]
+  split <;> simp [Latch.walk, Latch.clear, State.emit]
 
 end Rie.Props.C08
